@@ -302,6 +302,77 @@ static B binder_expr(G &g, int kinds)
     return add(terms);
 }
 
+
+// Subs objects that bind the *differentiation variable itself* while the point still depends on it, e.g.
+// Subs(Derivative(f(x), x), {x: x**2}) or Subs(Derivative(g(x, y), y), {x: 3*x, y: x}): diff's own results only use
+// fresh dummies as Subs variables, so the branch of DiffVisitor::bvisit(const Subs &) for a key equal to x is reached
+// only by such inputs (which subs() on a Derivative produces).  Built structurally.
+static B binder_bound_var(G &g, const std::string &xn)
+{
+    B x = symbol(xn), y = symbol(xn == "x" ? "y" : "x");
+    B pts[] = {pow(x, integer(2)), mul(integer(3), x), add(x, y), sin(x), add(pow(x, integer(2)), y), exp(x),
+               mul(x, y), add(x, integer(1))};
+    B pt = pts[g.r.below(8)];
+    B pt2 = pts[g.r.below(8)];
+    B t;
+    switch (g.r.below(5)) {
+        case 0: {
+            multiset_basic ms;
+            ms.insert(x);
+            if (g.r.coin(1, 3))
+                ms.insert(x);
+            map_basic_basic m;
+            m[x] = pt;
+            t = make_rcp<const Subs>(Derivative::create(function_symbol("f", x), ms), m);
+            break;
+        }
+        case 1: { // both arguments bound, the second one to x itself
+            multiset_basic ms;
+            ms.insert(y);
+            map_basic_basic m;
+            m[x] = pt;
+            m[y] = x;
+            t = make_rcp<const Subs>(Derivative::create(function_symbol("g", vec_basic{x, y}), ms), m);
+            break;
+        }
+        case 2: { // y stays free
+            multiset_basic ms;
+            ms.insert(x);
+            map_basic_basic m;
+            m[x] = pt;
+            t = make_rcp<const Subs>(Derivative::create(function_symbol("g", vec_basic{x, y}), ms), m);
+            break;
+        }
+        case 3: {
+            multiset_basic ms;
+            ms.insert(x);
+            ms.insert(y);
+            map_basic_basic m;
+            m[x] = pt;
+            m[y] = pt2;
+            t = make_rcp<const Subs>(Derivative::create(function_symbol("g", vec_basic{x, y}), ms), m);
+            break;
+        }
+        default: { // x bound to a point without x next to a dummy bound to a point with x
+            B xi = symbol("_xi_2");
+            multiset_basic ms;
+            ms.insert(x);
+            ms.insert(xi);
+            map_basic_basic m;
+            m[x] = g.r.coin() ? pt : B(y);
+            m[xi] = pt2;
+            t = make_rcp<const Subs>(Derivative::create(function_symbol("g", vec_basic{x, xi}), ms), m);
+            break;
+        }
+    }
+    switch (g.r.below(4)) {
+        case 0: return t;
+        case 1: return mul(t, gsym(g));
+        case 2: return add(t, function_symbol("f", x));
+        default: return mul(t, sin(x));
+    }
+}
+
 // all subterms reachable through get_args(), preorder
 static void subterms(const B &e, vec_basic &out)
 {
